@@ -215,6 +215,10 @@ def run(pid, tier, out):
         if cx.get('model_error'):
             corr_error = (corr_error or '') + ' interleaving stream: %s' % cx['model_error'][-600:]
             tie_broken = True
+    if (cx.get('stats') or {}).get('known_cached_class_schedules'):
+        for f in common.load_known():
+            if f.get('kind') == 'known' and f.get('property') == pid and f.get('match', {}).get('pattern') == 'reshape-cached-class-vs-class-delete':
+                out.known_finding('%s [%d schedules]' % (f['what'][:400], cx['stats']['known_cached_class_schedules']))
     seen_cx = set()
     for v in cx['violations']:
         key = (v['payload']['scenario']['name'], v['payload']['check'])
